@@ -81,6 +81,7 @@ func nativeBigBatch(r *nrec, rng *rand.Rand) {
 	if !within(20*time.Second, g.Wait) {
 		r.add("C05", "batch-wait-blocked", "batch of %d items: Wait did not return within 20 s (%d items ran, NumPending %d) although nobody has to read the stream first", n, ran.Load(), g.NumPending())
 		r.add("C08", "batch-wait-blocked", "batch of %d items: workers blocked sending results (%d ran)", n, ran.Load())
+		r.add("C03", "hang", "batch of %d items on a running worker whose stream nobody reads yet: %d ran, %d still pending, %d in flight after 20 s", n, ran.Load(), w.NumPending(), w.NumProcessing())
 		return
 	}
 	got := 0
@@ -103,6 +104,66 @@ func nativeBigBatch(r *nrec, rng *rand.Rand) {
 	}
 	w.Stop()
 	r.stat("bigbatch.items", n)
+	nativeBigPurge(r, rng)
+}
+
+// N1b: a batch that spans several segments of the FIFO queue is purged while it is pending: every
+// item not yet dispatched is closed by Purge, so Wait returns, NumPending reaches 0 and the stream is
+// closed after the results of the items that did run (C08, C10); the same for an error worker
+func nativeBigPurge(r *nrec, rng *rand.Rand) {
+	for _, kind := range []string{"result", "error"} {
+		n := 1100 + rng.Intn(1500)
+		gate := make(chan struct{})
+		var ran atomic.Int64
+		var q interface{ Purge() }
+		var wait, drain func()
+		var pending func() int
+		var stop func()
+		items := make([]Item[int], n)
+		for i := range items {
+			items[i] = Item[int]{ID: strconv.Itoa(i), Data: i}
+		}
+		got := 0
+		if kind == "result" {
+			w := NewResultWorker(func(j Job[int]) (int, error) { <-gate; ran.Add(1); return j.Data(), nil }, 2)
+			rq := w.BindQueue()
+			g := rq.AddAll(items)
+			q, wait, pending, stop = rq, g.Wait, g.NumPending, func() { w.Stop() }
+			drain = func() {
+				for range g.Results() {
+					got++
+				}
+			}
+		} else {
+			w := NewErrWorker(func(j Job[int]) error { <-gate; ran.Add(1); return fmt.Errorf("e%d", j.Data()) }, 2)
+			eq := w.BindQueue()
+			g := eq.AddAll(items)
+			q, wait, pending, stop = eq, g.Wait, g.NumPending, func() { w.Stop() }
+			drain = func() {
+				for range g.Errs() {
+					got++
+				}
+			}
+		}
+		time.Sleep(5 * time.Millisecond) // two items are in flight (gated), the rest pending
+		q.Purge()
+		close(gate)
+		if !within(20*time.Second, wait) {
+			r.add("C08", "batch-wait-blocked", "%s batch of %d items purged while pending: Wait did not return within 20 s (%d ran, NumPending %d)", kind, n, ran.Load(), pending())
+			r.add("C10", "purge-lost", "%s batch of %d items purged while pending: %d items were neither run nor closed by Purge", kind, n, pending())
+			continue
+		}
+		if p := pending(); p != 0 {
+			r.add("C08", "pending-after-wait", "%s batch: NumPending=%d after Wait returned (purged batch)", kind, p)
+		}
+		if !within(20*time.Second, drain) {
+			r.add("C08", "stream-not-closed", "%s batch of %d items purged while pending: stream not closed (%d read, %d ran)", kind, n, got, ran.Load())
+		} else if got != int(ran.Load()) {
+			r.add("C08", "missing-result", "%s batch of %d items purged while pending: %d items ran, %d outcomes on the stream", kind, n, ran.Load(), got)
+		}
+		stop()
+		r.stat("bigpurge.items", n)
+	}
 }
 
 // N2: bursts that cross the FIFO's 1024- and 1536-slot segments; every job exactly once; with
@@ -498,6 +559,8 @@ func nativeRaceMix(r *nrec, rng *rand.Rand, round int) {
 			W.Restart()
 		case 6:
 			purge()
+		case 7:
+			W.Metrics().Reset()
 		}
 		time.Sleep(time.Duration(50+rg.Intn(200)) * time.Microsecond)
 	})
